@@ -253,6 +253,17 @@ def check(ctx, max_degree=3):
         probs = []
         if not d["guard_ok"]:
             probs.append("unknown adjacency is not rejected before building anything")
+        # the slot counter runs through all points: set to 0 outside the point loops, only ever advanced by one inside
+        fnr = ctx.repo.mod(DG).fn("rule")
+        resets = []
+        for lp in [n for n in ast.walk(fnr) if isinstance(n, ast.For)]:
+            for n in ast.walk(lp):
+                if isinstance(n, ast.Assign) and any(isinstance(t, ast.Name) and t.id == "index" for t in n.targets):
+                    resets.append(n.lineno)
+                elif isinstance(n, ast.AugAssign) and isinstance(n.target, ast.Name) and n.target.id == "index" and not (isinstance(n.op, ast.Add) and isinstance(n.value, ast.Constant) and n.value.value == 1):
+                    resets.append(n.lineno)
+        if resets:
+            probs.append("the slot counter `index` is reassigned (not advanced by one) inside the point loops at line(s) %s: later iterations overwrite earlier points" % sorted(set(resets)))
         if not d["tensor_ok"]:
             probs.append("tensor Gauss points/weights are not (x_j, x_i), w_i*w_j at slot i*n+j")
         if not d["npts_ok"]:
